@@ -463,7 +463,55 @@ def m_stmt(m, node):
     return m.enclosing_stmt(node) or node
 
 
-RULES = [rule_a, rule_b, rule_c, rule_d]
+def rule_e(ctx: Ctx) -> None:
+    ctx.rule("C18.e", "constructor and lookups normalise table paths alike: in MappingSchema._normalize every part of a table path (catalog, db, table) is normalised with "
+                      "is_table=True, as _normalize_table does for every part on the add_table / lookup side — otherwise a schema built from a mapping and one built by "
+                      "add_table disagree on qualifiers whose case the dialect preserves for tables")
+    c = ctx.repo.cls("sqlglot.schema", "MappingSchema")
+    meths = c.methods()
+    nm, nt = meths.get("_normalize"), meths.get("_normalize_table")
+    ctx.require(nm is not None and nt is not None, "anchor vanished: MappingSchema._normalize / _normalize_table")
+    # lookup side: every normalize_name call in _normalize_table flags table parts
+    nt_calls = [x for x in walk_no_nested(nt) if isinstance(x, ast.Call) and (call_name(x) or "").split(".")[-1] in ("normalize_name", "_normalize_name")]
+    ctx.require(bool(nt_calls) and all(any(k.arg == "is_table" and isinstance(k.value, ast.Constant) and k.value.value is True for k in x.keywords) for x in nt_calls),
+                "anchor vanished: _normalize_table no longer normalises every part with is_table=True")
+    # names that hold (parts of) the table path in _normalize: the loop variable over the flattened schema and anything unpacked / iterated from it
+    loops = [lp for lp in walk_no_nested(nm) if isinstance(lp, ast.For) and "flatten" in norm(lp.iter)]
+    ctx.require(len(loops) == 1 and isinstance(loops[0].target, ast.Name), "anchor vanished: _normalize no longer iterates the flattened schema")
+    path = {loops[0].target.id}
+    changed = True
+    while changed:
+        changed = False
+        for x in walk_no_nested(nm):
+            srcs = []
+            if isinstance(x, ast.Assign):
+                srcs = [(tg, x.value) for tg in x.targets]
+            elif isinstance(x, ast.comprehension):
+                srcs = [(x.target, x.iter)]
+            elif isinstance(x, ast.For):
+                srcs = [(x.target, x.iter)]
+            for tg, val in srcs:
+                if any(isinstance(v, ast.Name) and v.id in path for v in ast.walk(val)) and not (isinstance(val, ast.Call) and (call_name(val) or "").split(".")[-1] in ("nested_get", "_normalize_name", "normalize_name")):
+                    for t_ in ast.walk(tg):
+                        if isinstance(t_, ast.Name) and t_.id not in path and t_.id not in ("columns", "column_name", "column_type"):
+                            path.add(t_.id)
+                            changed = True
+    n = 0
+    for x in walk_no_nested(nm):
+        if isinstance(x, ast.Call) and (call_name(x) or "").split(".")[-1] == "_normalize_name" and x.args and isinstance(x.args[0], ast.Name) and x.args[0].id in path:
+            n += 1
+            flagged = any(k.arg == "is_table" and isinstance(k.value, ast.Constant) and k.value.value is True for k in x.keywords)
+            inst = f"{c.key}._normalize|{norm(x)}"
+            if flagged:
+                ctx.ok(inst, {"call": norm(x), "is_table": True})
+            else:
+                ctx.fail(c.module, x, f"{c.key}._normalize", x, f"`{norm(x)}` normalises a part of the table path without is_table=True although lookups (_normalize_table) flag "
+                                                                 f"every part: in a dialect that keeps table names case-sensitive the constructor folds a qualifier that add_table and find() keep")
+    ctx.count("table_path_normalisations", n)
+    ctx.min_instances("table_path_normalisations", n, 1)
+
+
+RULES = [rule_a, rule_b, rule_c, rule_d, rule_e]
 EXPLANATION = (
     "Cache-coherence analysis of MappingSchema computed from the source: dict memos are discovered by pattern (get/in + "
     "item store on a field initialised in __init__), the fields each fill function reads are collected transitively "
